@@ -25,6 +25,9 @@ class Run:
         if u.ok:
             self.units[u.name] = {'ir_lines': getattr(u, 'ir_lines', 0), 'functions': len(u.info.get('functions', [])), 'desc': desc or ''}
             self.functions.update(u.info.get('functions', [])); self.src_functions.update(u.info.get('src_functions', []))
+        elif self.pid == 'C14' and u.error and ('deleted' in u.error) and ('trk' in u.name):
+            # the harness value type is move-only: needing its deleted copy constructor means the library now copies a semantic value
+            self.violation('a move-only semantic value type no longer compiles (%s): %s' % (u.name, u.error[:300]), {'query': 'build_' + u.name, 'kind': 'build', 'unit': u.name, 'input_hex': ''})
         else:
             self.inconclusive.append('unit %s failed to build: %s' % (u.name, u.error))
 
